@@ -44,3 +44,39 @@ Print Assumptions C06_eff_content.
 Print Assumptions C06_idempotent.
 Print Assumptions C06_fixed_point.
 Print Assumptions C06_nonvacuous.
+
+(* ---- pipelines: compose / eliminate / compose / eliminate ... (the quantifier "with fresh or previously cached
+   feasibility states").  Along every history made of apply_func, un-pruned composition with total trees and
+   eliminations whose oracle is exact on the path polytopes of the tree at hand, the tree stays a legal input
+   (pinv: cached states Indeterminate or sound feasible ones; every decision below the root has both branches; the
+   root may have lost one), so every elimination of the pipeline is effective and a fixed point ---- *)
+From AT Require Import Reduce CPrune Ops Schema WfC OpsWf ElimWf CPruneWf History CacheHistory CacheHistoryRun EffHistory EffHistoryEx.
+Theorem C06_pipeline_effective : forall tol ops init t o, 0 <= tol ->
+  (forall ox, In ox ops -> eff_op (snd ox)) -> exact_hist tol init ops ->
+  pinv tol init -> run tol init ops = HOk t ->
+  (forall r, is_path [] t r -> oexact_at o r) -> mir_sound o tol ->
+  eff_root tol [] (fst (elim o tol t)) /\
+  (forall o' tol', elim o' tol' (fst (elim o tol t)) = (fst (elim o tol t), k0)).
+Proof. exact pipeline_effective. Qed.
+Theorem C06_pipeline_invariant : forall tol, 0 <= tol -> forall ops init t,
+  (forall ox, In ox ops -> eff_op (snd ox)) -> exact_hist tol init ops ->
+  pinv tol init -> run tol init ops = HOk t -> pinv tol t.
+Proof. exact pipeline_inv. Qed.
+(* a root that lost a branch in an earlier round *)
+Theorem C06_effective_root_single_branch : forall o tol t, 0 <= tol -> oexact o -> mir_sound o tol ->
+  c_exists t = true -> okc_root tol [] t -> st_wit tol [] (c_state t) ->
+  eff_root tol [] (fst (elim o tol t)).
+Proof. exact elim_eff_root. Qed.
+Theorem C06_fresh_total_is_legal : forall tol t, c_exists t = true -> fresh t -> ctotal t -> pinv tol t.
+Proof. exact fresh_total_pinv. Qed.
+Example C06_pipeline_nonvacuous :
+  exists t, run 0 ex_t px_ops = HOk t /\
+    (forall ox, In ox px_ops -> eff_op (snd ox)) /\ exact_hist 0 ex_t px_ops /\ pinv 0 ex_t /\
+    (forall r, is_path [] t r -> oexact_at ex_o r) /\
+    eff_root 0 [] (fst (elim ex_o 0 t)) /\ elim ex_o 0 (fst (elim ex_o 0 t)) = (fst (elim ex_o 0 t), k0).
+Proof. exact px_example. Qed.
+Print Assumptions C06_pipeline_effective.
+Print Assumptions C06_pipeline_invariant.
+Print Assumptions C06_effective_root_single_branch.
+Print Assumptions C06_fresh_total_is_legal.
+Print Assumptions C06_pipeline_nonvacuous.
